@@ -48,6 +48,7 @@ def sessions(draw, rec):
         'ext_msg_ours': draw(st.booleans()),
         'ext_msg_peer': draw(st.booleans()),
         'v6_transport': v6,
+        'daemon_negotiated': draw(st.sampled_from([True, True, False])),
     }
 
 
@@ -162,7 +163,9 @@ def _check(case: dict, holder: dict) -> dict:
         conf, neighbor = exa.neighbor_from_text(conf_text)
     except exa.ConfigError as exc:
         raise RuntimeError(f'harness: neighbor configuration refused: {exc}\n{conf_text}') from None
-    neg = exa.negotiate(neighbor, peer_open, exa.Direction.OUT)
+    # the daemon keeps ONE Negotiated per session, made with Direction.IN (reactor/protocol.py), and encodes with it;
+    # `exabgp encode` and the configuration self-check make theirs with Direction.OUT: both are real callers
+    neg = exa.negotiate(neighbor, peer_open, exa.Direction.IN if sess.get('daemon_negotiated', True) else exa.Direction.OUT)
     text = textgen.route_text(rec)
     classes = [f'family:{rec["afi"]}/{rec["safi"]}', f'form:{rec["form"]}']
     try:
@@ -314,6 +317,9 @@ def _check(case: dict, holder: dict) -> dict:
         classes.append('local-as4')
     if sess['v6_transport']:
         classes.append('v6-transport')
+    classes.append('negotiated:direction-in(daemon)' if sess.get('daemon_negotiated', True) else 'negotiated:direction-out(encode)')
+    if bool(sess['our_addpath'] & 2 and sess['peer_addpath'] & 1) != bool(sess['our_addpath'] & 1 and sess['peer_addpath'] & 2):
+        classes.append('addpath-one-direction-only')
     return {'nontrivial': nontrivial, 'classes': classes, 'sample': {'text': text, 'session': sess, 'wire': msgs[0].hex()}}
 
 
